@@ -116,6 +116,33 @@ func loadAll(repo, verifDir string) (*Global, error) {
 	for _, p := range pkgs {
 		for _, f := range p.Syntax {
 			for _, d := range f.Decls {
+				if gd, ok := d.(*ast.GenDecl); ok && gd.Tok == token.VAR {
+					// function literals stored in a field of a package-level variable's composite literal
+					// (`var xCmd = &cobra.Command{RunE: func(...) {...}}`) are units of their own: <pkg>.<var>.<field>
+					for _, sp := range gd.Specs {
+						vs, ok := sp.(*ast.ValueSpec)
+						if !ok || len(vs.Names) != 1 || len(vs.Values) != 1 {
+							continue
+						}
+						ast.Inspect(vs.Values[0], func(nd ast.Node) bool {
+							kv, ok := nd.(*ast.KeyValueExpr)
+							if !ok {
+								return true
+							}
+							kid, ok1 := kv.Key.(*ast.Ident)
+							lit, ok2 := kv.Value.(*ast.FuncLit)
+							if !ok1 || !ok2 {
+								return true
+							}
+							if sig, ok := p.TypesInfo.TypeOf(lit).(*types.Signature); ok {
+								key := p.Name + "." + vs.Names[0].Name + "." + kid.Name
+								g.funcs[key] = &FuncInfo{Key: key, Pkg: p, Lit: lit, Body: lit.Body, Sig: sig, Type: lit.Type}
+							}
+							return false
+						})
+					}
+					continue
+				}
 				fd, ok := d.(*ast.FuncDecl)
 				if !ok || fd.Body == nil {
 					continue
